@@ -138,23 +138,29 @@ class ParserModel(object):
             raise Broken('cfg_parse_internal: main loop not identified (%d candidate loops)' % len(hdrs))
         self.header = hdrs[0]
         self.loop_body = loops[self.header]
-        # the state variable: a header phi named 'state'
+        # the state variable: the loop-carried value the biggest switch of the loop dispatches on
         self.state_phi = None
         self.phis = {}
         for ph in fn.blocks[self.header].phis():
             nm = fn.var_names.get(ph.res)
             self.phis[nm or ph.res] = ph
-            if nm == 'state':
-                self.state_phi = ph
-        if self.state_phi is None:
-            raise Broken('cfg_parse_internal: no loop-carried variable named "state"')
-        # the state switch and its cases
-        self.state_switch = None
+        best = None
         for ins in fn.instrs():
-            if ins.op == 'switch' and ins.ops[0].kind == 'reg' and ins.ops[0].name == self.state_phi.res:
-                self.state_switch = ins
-        if self.state_switch is None:
-            raise Broken('cfg_parse_internal: no switch on the state variable')
+            if ins.op == 'switch' and ins.block.label in self.loop_body and ins.ops[0].kind == 'reg':
+                if any(ph.res == ins.ops[0].name for ph in fn.blocks[self.header].phis()):
+                    if best is None or len(ins.cases) > len(best.cases):
+                        best = ins
+        if best is None or len(best.cases) < 8:
+            raise Broken('cfg_parse_internal: no switch over a loop-carried state variable')
+        self.state_switch = best
+        for nm, ph in list(self.phis.items()):
+            if ph.res == best.ops[0].name:
+                self.state_phi = ph
+                if nm != 'state':
+                    # keep the canonical name the rules use
+                    del self.phis[nm]
+                    self.phis['state'] = ph
+                    fn.var_names[ph.res] = 'state'
         self.states = sorted(v for v, _ in self.state_switch.cases)
         self.mod_sets = ctx.mod_sets
         self.ex = sym.Explorer(ctx.modules, inline=(), max_visits=2, max_paths=20000, mod_sets=self.mod_sets)
